@@ -263,7 +263,7 @@ func ruleReplayBrackets(c *Ctx) {
 	}
 	var dry types.Object
 	if s.Type.Params != nil && len(s.Type.Params.List) > 0 && len(s.Type.Params.List[0].Names) > 0 {
-		dry = s.Info.ObjectOf(s.Type.Params.List[0].Names[0])
+		dry = objOf(s.Info, s.Type.Params.List[0].Names[0])
 	}
 	dryEdge := func(f []Fact) bool { return dry != nil && factIdent(s.Info, f, dry, true) }
 	status := func(state string) EvPred {
@@ -623,7 +623,7 @@ func ruleCheckpointPrunesReplay(c *Ctx) {
 				if !ok {
 					return true
 				}
-				o := s.Info.ObjectOf(id)
+				o := objOf(s.Info, id)
 				if o == nil || seen[o] {
 					return true
 				}
